@@ -4,7 +4,7 @@ import ast
 import numpy as np
 
 from ..core.index import AnalysisError, walk_no_defs, calls_in, call_name, kwarg
-from ..core.cfg import CFG, node_calls
+from ..core.cfg import CFG, MustFacts, node_calls
 from ..core.vec import Vec, Opaque
 from ..core.bounds import Bounds
 from ..core.flow import CallGraph
@@ -285,9 +285,8 @@ def rule_ownership(ctx):
         g = CFG(f.node)
         from ..core.cfg import MustFacts
         mf = MustFacts(g, resolver=norm.Resolver(p, f.module, f.cls))
-        n = [x for x in g.stmt_nodes() if c in node_calls(x)][0]
-        ok = f.name == "handle_connect_error" and ("truth", "is_fatal", None, True) in (mf.at(n) or ())
-        ctx.ob(f"failed() called from {f.name} only under the fatal-error verdict", ok, "a transport is failed permanently without the classifier saying so", f.loc(c))
+        ctx.ob(f"failed() called from {f.name} only (when the classifier says so: decided cell-wise in C14.3)", f.name == "handle_connect_error",
+               "a transport is failed permanently outside the connect-error handler", f.loc(c))
 
 
 # ------------------------------------------------------------------------------------------
@@ -318,64 +317,72 @@ def rule_loop(ctx):
     ctx.ob("attempt_connect runs only as continuation of the delay armed by transport_check", ok,
            f"{len(acalls)} direct calls, referenced from {[f.qualname for f, _ in arefs]}", ac.loc())
 
-    # transport_check
-    g = CFG(tc.node)
-    from ..core.cfg import MustFacts
-    mf = MustFacts(g, resolver=norm.Resolver(p, tc.module, tc.cls))
-    gate = [n for n in g.stmt_nodes() if n.kind == "test" and any(self_call(c, "_can_reconnect") for c in node_calls(n))]
-    ctx.require(len(gate) == 1, "transport_check: the _can_reconnect() gate not found")
-    gate = gate[0]
-    pol = not (isinstance(gate.ast, ast.UnaryOp) and isinstance(gate.ast.op, ast.Not))
-    rej = [(n, c) for n in g.stmt_nodes() for c in node_calls(n) if call_name(c) == "txaio.reject" and c.args and is_self_attr(c.args[0], "_done_f")]
-    ctx.ob("exhausted budget rejects the result of start()", len(rej) == 1, f"{len(rej)} reject sites", tc.loc())
-    sleeps = [(n, c) for n in g.stmt_nodes() for c in node_calls(n) if call_name(c) == "txaio.sleep"]
-    ctx.require(len(sleeps) == 1, "transport_check: txaio.sleep not found")
-    sl_n, sl_c = sleeps[0]
-    exhausted_edge = "F" if pol else "T"
-    for n, c in rej:
-        # reached only over the exhausted edge of the gate
-        ok = g.always_preceded_by(n, lambda x: x is gate) and not g.path_exists(
-            gate, n, edge_ok=lambda a, b, lab: not (a is gate and lab is not None and lab[0] == exhausted_edge))
-        ctx.ob("the rejection happens only when no transport can reconnect", ok, "start() is failed although a transport has attempts left", tc.loc(c))
-        ctx.ob("after exhaustion no further attempt is scheduled", g.always_followed_by(n, lambda x: False, exits=[sl_n], exc=False) and
-               not g.path_exists(n, sl_n), "the path continues to the transport selection / sleep after rejecting", tc.loc(c))
-    ctx.ob("the delay is armed only when some transport can reconnect",
-           not g.path_exists(gate, sl_n, edge_ok=lambda a, b, lab: not (a is gate and lab is not None and lab[0] != exhausted_edge and lab[0] in "TF")),
-           "sleep reachable over the exhausted edge", tc.loc(sl_c))
-    # selection loop
-    nxt = [n for n in g.stmt_nodes() if n.kind == "stmt" and isinstance(n.ast, ast.Assign) and isinstance(n.ast.value, ast.Call)
-           and isinstance(n.ast.value.func, ast.Name) and n.ast.value.func.id == "next"]
-    ctx.require(len(nxt) == 1, "transport_check: next(transport_gen) not found")
-    var = norm.text(nxt[0].ast.targets[0])
-    gen = norm.text(nxt[0].ast.value.args[0])
-    gens = [s for s in walk_no_defs(start.node) if isinstance(s, ast.Assign) and norm.text(s.targets[0]) == gen]
-    ok = len(gens) == 1 and isinstance(gens[0].value, ast.Call) and call_name(gens[0].value) == "itertools.cycle" and \
-        len(gens[0].value.args) == 1 and is_self_attr(gens[0].value.args[0], "_transports")
-    ctx.ob("candidates come round-robin from itertools.cycle(self._transports), created once per start", ok and
-           not any(isinstance(x, (ast.For, ast.While)) and any(y is gens[0] for y in ast.walk(x)) for x in walk_no_defs(start.node)) if gens else False,
-           f"`{gen}` is not a single cycle over the configured transports", start.loc(gens[0]) if gens else start.loc())
-    store = [n for n in g.stmt_nodes() if n.kind == "stmt" and isinstance(n.ast, ast.Assign) and norm.text(n.ast.targets[0]) == "transport_candidate[0]"]
-    ctx.require(len(store) == 1, "transport_check: candidate store not found")
-    f = mf.at(store[0]) or ()
-    okc = ("truth", f"{var}.can_reconnect()", None, True) in f and norm.text(store[0].ast.value) == var
-    ctx.ob("the chosen candidate is the cycle's current transport and passed can_reconnect()", okc,
-           f"facts at the store: {sorted(map(str, f))[:4]}", tc.loc(store[0].ast))
-    ctx.ob("the delay is armed only after a candidate was chosen", g.always_preceded_by(sl_n, lambda x: x is store[0]),
-           "a path reaches the sleep without choosing a transport", tc.loc(sl_c))
-    # no other store to the candidate between choice and sleep; next() not called again after the choice
-    ctx.ob("no further next() between the choice and the sleep", not any(g.path_exists(store[0], m) and g.path_exists(m, sl_n) and m is not store[0]
-                                                                          for m in nxt if g.path_exists(store[0], m, avoid=lambda x: x is sl_n)),
-           "the cycle is advanced again after the candidate was fixed", tc.loc())
-    dl = [n for n in g.stmt_nodes() if n.kind == "stmt" and isinstance(n.ast, ast.Assign) and isinstance(n.ast.value, ast.Call)
-          and isinstance(n.ast.value.func, ast.Attribute) and n.ast.value.func.attr == "next_delay"]
-    okd = len(dl) == 1 and norm.text(dl[0].ast.value.func.value) == var and norm.text(sl_c.args[0]) == norm.text(dl[0].ast.targets[0]) \
-        and g.always_preceded_by(dl[0], lambda x: x is store[0])
-    ctx.ob("the armed delay is next_delay() of the chosen transport", okd, "sleep argument is not the candidate's next_delay()", tc.loc(sl_c))
-    ds = [n for n in g.stmt_nodes() if n.kind == "stmt" and isinstance(n.ast, ast.Assign) and is_self_attr(n.ast.targets[0], "_delay_f")]
-    ctx.ob("the pending delay is kept in self._delay_f (stop() cancels it)", len(ds) == 1 and ds[0] is sl_n, "_delay_f does not hold the sleep future", tc.loc(sl_c))
-    cbs = [c for n in g.stmt_nodes() for c in node_calls(n) if call_name(c) == "txaio.add_callbacks" and c.args and is_self_attr(c.args[0], "_delay_f")]
-    okb = len(cbs) == 1 and len(cbs[0].args) == 3 and norm.text(cbs[0].args[1]) == "attempt_connect" and norm.text(cbs[0].args[2]) == "error"
-    ctx.ob("delay future continues with attempt_connect / error", okb, "continuations of the delay changed", tc.loc())
+    # transport_check, evaluated cell by cell: three transports with every pattern of can_reconnect(), the round-robin cycle at every
+    # position. Exhausted -> start() is failed and nothing is armed; otherwise the next transport in cyclic order that may still be
+    # tried becomes the candidate, its next_delay() is slept and the delay continues with attempt_connect / error.
+    from ..core.tiny import Tiny, Sym
+    import itertools
+    gens = [s_ for s_ in walk_no_defs(start.node) if isinstance(s_, ast.Assign) and isinstance(s_.value, ast.Call) and call_name(s_.value) == "itertools.cycle"]
+    ok = len(gens) == 1 and len(gens[0].value.args) == 1 and is_self_attr(gens[0].value.args[0], "_transports") and isinstance(gens[0].targets[0], ast.Name) and \
+        not any(isinstance(x, (ast.For, ast.While)) and any(y is gens[0] for y in ast.walk(x)) for x in walk_no_defs(start.node))
+    ctx.ob("candidates come round-robin from itertools.cycle(self._transports), created once per start", ok,
+           "no single cycle over the configured transports", start.loc(gens[0]) if gens else start.loc())
+    ctx.require(ok, "_start: itertools.cycle(self._transports) not found")
+    gen_name = gens[0].targets[0].id
+    cand = [s_ for s_ in walk_no_defs(start.node) if isinstance(s_, ast.Assign) and isinstance(s_.targets[0], ast.Name) and isinstance(s_.value, ast.List) and len(s_.value.elts) == 1]
+    ctx.require(len(cand) >= 1, "_start: the one-element candidate cell not found")
+    cand_name = None
+    for c_ in cand:
+        if any(isinstance(x, ast.Subscript) and norm.text(x.value) == c_.targets[0].id and isinstance(x.ctx, ast.Store) for x in ast.walk(tc.node)):
+            cand_name = c_.targets[0].id
+    ctx.require(cand_name is not None, "transport_check: candidate store not found")
+    body = [x for x in tc.node.body if not (isinstance(x, ast.Expr) and isinstance(x.value, ast.Constant))]
+    problems = []
+    try:
+        for flags in itertools.product((True, False), repeat=3):
+            for k in range(3):
+                ts = []
+                for i, fl in enumerate(flags):
+                    ts.append(Sym(f"transport{i}", idx=i, url=f"ws://t{i}", methods={"can_reconnect": (lambda fl=fl: fl), "next_delay": (lambda i=i: 100 + i)}))
+                cyc = itertools.cycle(ts)
+                for _ in range(k):
+                    next(cyc)
+                cell = [0]
+                calls = []
+
+                def default(f_, a_, k_=None):
+                    calls.append((f_, list(a_)))
+                    if f_ == "self._can_reconnect":
+                        return any(flags)
+                    if f_ == "txaio.sleep":
+                        return Sym("delay-future", delay=a_[0])
+                    return Sym(f"<{f_}>")
+                env = {gen_name: cyc, cand_name: cell, "self": Sym("component"), "self._done_f": Sym("done"), "attempt_connect": Sym("attempt_connect"), "error": Sym("error"),
+                       tc.params()[0]: None}
+                t = Tiny(env, default_call=default)
+                r = t.run(body)
+                slept = [a for f_, a in calls if f_ == "txaio.sleep"]
+                rejected = [a for f_, a in calls if f_ == "txaio.reject"]
+                name = f"can_reconnect={list(flags)}, cycle at {k}"
+                if not any(flags):
+                    if not (len(rejected) == 1 and rejected[0][0] is env["self._done_f"] and not slept and cell == [0]):
+                        problems.append(f"{name}: exhausted, but start() rejected {len(rejected)}x and {len(slept)} delay(s) armed")
+                    continue
+                want = next(ts[(k + j) % 3] for j in range(3) if flags[(k + j) % 3])
+                if rejected:
+                    problems.append(f"{name}: start() is failed although {want.name} has attempts left")
+                if cell[0] is not want:
+                    problems.append(f"{name}: candidate is {cell[0]}, expected {want.name} (next in round-robin order that can reconnect)")
+                if not (len(slept) == 1 and slept[0][0] == 100 + want.attrs["idx"]):
+                    problems.append(f"{name}: delay armed {[a[0] for a in slept]}, expected next_delay() of {want.name}")
+                df = t.env.get("self._delay_f") or env["self"].attrs.get("_delay_f")
+                cbs = [a for f_, a in calls if f_ == "txaio.add_callbacks"]
+                if not (isinstance(df, Sym) and df.name == "delay-future" and len(cbs) == 1 and cbs[0][0] is df and cbs[0][1] is env["attempt_connect"] and cbs[0][2] is env["error"]):
+                    problems.append(f"{name}: the pending delay is not kept in self._delay_f / does not continue with attempt_connect, error")
+        ctx.ob("transport_check: exhaustion fails start() and arms nothing; otherwise the next transport in round-robin order that may still be tried is "
+               "attempted after its own next_delay() [24 cells]", not problems, "; ".join(sorted(set(problems))[:2]), tc.loc())
+    except AnalysisError as e:
+        raise AnalysisError(f"[C14.3-reconnect-loop] transport_check outside the modelled subset: {e}")
 
     # _can_reconnect == any(transport.can_reconnect())
     cr = p.func(f"{COMPONENT}._can_reconnect")
@@ -412,14 +419,48 @@ def rule_loop(ctx):
                not gh.path_exists(gh.entry, gh.exit, avoid=lambda x: x is n0, edge_ok=CFG._no_exc(None)),
                "a path through handle_connect_error ends without scheduling transport_check: no new attempt although transports have attempts left",
                hce.loc(n0.ast))
-        fs = [n for n in gh.stmt_nodes() for c in node_calls(n) if isinstance(c.func, ast.Attribute) and c.func.attr == "failed"]
-        ctx.ob("a fatal error fails the candidate before the loop is re-entered", len(fs) == 1 and gh.path_exists(fs[0], n0) and not gh.path_exists(n0, fs[0])
-               and norm.text([c for c in node_calls(fs[0]) if isinstance(c.func, ast.Attribute) and c.func.attr == "failed"][0].func.value) == "transport_candidate[0]",
-               "failed() is not applied to the current candidate before transport_check", hce.loc())
-        # the classifier is asked with the error value
-        isf = [n for n in gh.stmt_nodes() if n.kind == "stmt" and isinstance(n.ast, ast.Assign) and norm.text(n.ast.targets[0]) == "is_fatal"]
-        vals = sorted(norm.text(n.ast.value) for n in isf)
-        ctx.ob("the fatal verdict is False without classifier, else the classifier's verdict on the error", vals == ["False", "self._is_fatal(fail.value)"], f"is_fatal = {vals}", hce.loc())
+        # cell-wise: classifier absent / says fatal / says not fatal, for each kind of error value
+        problems = []
+        try:
+            for classifier in (None, True, False):
+                for kind in ("ApplicationError", "OSError", "ssl", "other"):
+                    failed = []
+                    candidate = Sym("candidate", methods={"failed": lambda: failed.append(1)})
+                    err_value = Sym("error-value", args=[[["lib", "func", "reason"]]], methods={"error_message": lambda: "msg"})
+                    asked = []
+                    calls = []
+
+                    def default(f_, a_, k_=None):
+                        calls.append((f_, list(a_)))
+                        if f_ == "isinstance":
+                            tn = a_[1].name if isinstance(a_[1], Sym) else str(a_[1])
+                            return kind in tn
+                        if f_ == "self._is_ssl_error":
+                            return kind == "ssl"
+                        if f_ == "self._is_fatal":
+                            asked.append(a_[0])
+                            return classifier
+                        return Sym(f"<{f_}>")
+                    env = {cand_name: [candidate], "self": Sym("component"), "self._is_fatal": (Sym("classifier") if classifier is not None else None),
+                           hce.params()[0]: Sym("failure", value=err_value), "transport_check": Sym("transport_check"),
+                           "ApplicationError": Sym("ApplicationError"), "OSError": Sym("OSError")}
+                    t = Tiny(env, default_call=default)
+                    r = t.run([x for x in hce.node.body if not (isinstance(x, ast.Expr) and isinstance(x.value, ast.Constant))])
+                    again = [a for f_, a in calls if (f_ == "txaio.call_later" and len(a) >= 2 and a[1] is env["transport_check"]) or f_ == "transport_check"]
+                    cell = f"classifier {'absent' if classifier is None else 'says ' + ('fatal' if classifier else 'not fatal')}, {kind} error"
+                    if r[0] == "raise":
+                        problems.append(f"{cell}: the handler itself raises {r[1]}")
+                        continue
+                    if bool(failed) != (classifier is True):
+                        problems.append(f"{cell}: candidate {'failed permanently' if failed else 'not failed'}")
+                    if classifier is not None and not (len(asked) == 1 and asked[0] is err_value):
+                        problems.append(f"{cell}: classifier asked {len(asked)}x / not with the error value")
+                    if len(again) != 1:
+                        problems.append(f"{cell}: transport_check re-entered {len(again)}x, expected once")
+            ctx.ob("handle_connect_error: the candidate is failed permanently iff the classifier exists and calls the error fatal; the loop is re-entered once in every case "
+                   "[12 cells]", not problems, "; ".join(sorted(set(problems))[:2]), hce.loc())
+        except AnalysisError as e:
+            raise AnalysisError(f"[C14.3-reconnect-loop] handle_connect_error outside the modelled subset: {e}")
     # start-up: `start` event then the loop
     sf = [c for c in calls_in(start.node) if call_name(c) == "txaio.add_callbacks" and norm.text(c.args[0]) == "start_f"]
     ctx.ob("start(): the loop is entered after the 'start' listeners", len(sf) == 1 and [norm.text(a) for a in sf[0].args[1:]] == ["transport_check", "error"],
@@ -571,6 +612,37 @@ def rule_completion(ctx):
         k = _guarded_completions(ctx, lost, "done", f"{fw} connection-lost wrapper")
         k += _guarded_completions(ctx, succ, "done", f"{fw} on_connect_success")
         ctx.ob(f"{fw}: a lost connection fails the per-connection future", k >= 1 and any(call_name(x) == "txaio.reject" for x in calls_in(lost.node)), "no reject in the wrapper", lost.loc())
+        # cell-wise: whatever reason the framework reports (None on asyncio for a plain close, an exception otherwise), a lost connection
+        # fails the per-connection future exactly when it is still pending, with a real error, after the protocol's own handler ran
+        from ..core.tiny import Tiny, Sym
+        probs = []
+        try:
+            # Twisted always passes a Failure; asyncio passes None for a plain close
+            for reason in ((None, Sym("ConnectionResetError")) if fw == "asyncio" else (Sym("Failure(ConnectionLost)"), Sym("Failure(ConnectionDone)"))):
+                for called in (False, True):
+                    seq = []
+
+                    def default(f_, a_, k_=None):
+                        seq.append((f_, list(a_)))
+                        if f_ == "txaio.is_called":
+                            return called
+                        return Sym(f"<{f_}>")
+                    done_f = Sym("done")
+                    t = Tiny({lost.params()[0]: reason, "done": done_f, "orig": Sym("orig")}, default_call=default)
+                    r = t.run([x for x in lost.node.body if not (isinstance(x, ast.Expr) and isinstance(x.value, ast.Constant))])
+                    rej = [a for f_, a in seq if f_ == "txaio.reject"]
+                    names = [f_ for f_, a in seq]
+                    cell = f"lost with reason {reason}, per-connection future {'already completed' if called else 'pending'}"
+                    if (len(rej) == 1) != (not called) or len(rej) > 1:
+                        probs.append(f"{cell}: rejected {len(rej)}x")
+                    elif rej and (rej[0][0] is not done_f or rej[0][1] is None):
+                        probs.append(f"{cell}: rejected with {rej[0][1]}")
+                    if "orig" not in names or (rej and names.index("orig") > names.index("txaio.reject")):
+                        probs.append(f"{cell}: the protocol's own connection-lost handler is not called first")
+            ctx.ob(f"{fw}: a lost connection always fails a still pending per-connection future (so that the reconnect logic runs) [4 cells]", not probs,
+                   "; ".join(probs[:2]) + ": no new attempt is made although transports have attempts left, start() stays pending", lost.loc())
+        except AnalysisError as e:
+            raise AnalysisError(f"[C14.5-completion-guards] {fw} connection-lost wrapper outside the modelled subset: {e}")
         oc = [x for x in calls_in(lost.node) if norm.text(x.func) == "orig"]
         ctx.ob(f"{fw}: the wrapper still calls the protocol's own connection-lost handler", len(oc) == 1, "orig() not called", lost.loc())
         attr = "connectionLost" if fw == "twisted" else "connection_lost"
@@ -735,6 +807,6 @@ def run(ctx):
     rule_events(ctx)
     ctx.floor("C14.1-retry-budget-decision-table", 14)
     ctx.floor("C14.2-counter-ownership", 10)
-    ctx.floor("C14.3-reconnect-loop", 20)
+    ctx.floor("C14.3-reconnect-loop", 12)
     ctx.floor("C14.5-completion-guards", 25)
     ctx.floor("C14.6-event-bubbling", 25)
